@@ -766,6 +766,61 @@ func rulesC14(c *Ctx) {
 			return true
 		})
 		c.Check(src["resource_metadata"] && src["scope"], "middleware:challenge-parameters", hl, nil, "the challenge carries resource_metadata (from opts.ResourceMetadataURL) and scope (from opts.Scopes)")
+		// the options verify sees are the caller's: the constructor hands its opts parameter on unchanged, or as a copy that
+		// names every field of the options struct (a partial copy silently resets the omitted option, e.g. AllowMissingExpiration)
+		rb := c.Fn(pA, "", "RequireBearerToken")
+		optsP := rb.ParamOfNamed(pA, "RequireBearerTokenOptions")
+		c.Need(optsP != nil, "RequireBearerToken: options parameter")
+		optT := c.P.LookupType(pA, "RequireBearerTokenOptions")
+		optS := optT.Underlying().(*types.Struct)
+		okPass := false
+		for _, call := range hl.CallsIn(hl.Body, c.FnObj(pA, "", "verify"), false) {
+			okPass = len(call.Args) == 3 && hl.ObjOf(call.Args[2]) == types.Object(optsP)
+		}
+		completeCopy := func(f *Func) (bool, string) {
+			found, ok, miss := false, true, ""
+			ast.Inspect(f.Body, func(n ast.Node) bool {
+				cl, isLit := n.(*ast.CompositeLit)
+				if !isLit || namedOf(f.TypeOf(cl)) != optT {
+					return true
+				}
+				found = true
+				keys := map[string]bool{}
+				for _, e := range cl.Elts {
+					if kv, isKV := e.(*ast.KeyValueExpr); isKV {
+						keys[exprStr(kv.Key)] = true
+					}
+				}
+				for i := 0; i < optS.NumFields(); i++ {
+					if fld := optS.Field(i); fld.Exported() && !keys[fld.Name()] && len(cl.Elts) > 0 {
+						ok = false
+						miss += " " + fld.Name()
+					}
+				}
+				return true
+			})
+			return found && ok, miss
+		}
+		for _, w := range rb.writesToVar(rb.Body, optsP, true) {
+			as, isAs := w.(*ast.AssignStmt)
+			good := false
+			why := "reassigned from " + exprStr(as.Rhs[0])
+			if isAs && len(as.Rhs) == 1 {
+				if ce, isCall := ast.Unparen(as.Rhs[0]).(*ast.CallExpr); isCall {
+					if fn := rb.Callee(ce); fn != nil {
+						if g := c.P.FuncOf(fn); g != nil {
+							okc, miss := completeCopy(g)
+							good = okc
+							if miss != "" {
+								why = fn.Name() + " omits:" + miss
+							}
+						}
+					}
+				}
+			}
+			c.Check(good, "middleware:options-replaced", rb, w, "the options parameter is replaced only by a copy that names every exported field (%s)", why)
+		}
+		c.Check(okPass, "middleware:options-reach-verify", hl, nil, "verify is called with the constructor's own options value")
 		// per-request state: the handler literal assigns no variable declared outside itself
 		bad := ""
 		for _, w := range Writes(hl.Body, true) {
